@@ -7,6 +7,7 @@ package main
 import (
 	"fmt"
 	"sort"
+	"strings"
 
 	nodetypes "github.com/SaoNetwork/sao/x/node/types"
 	ordertypes "github.com/SaoNetwork/sao/x/order/types"
@@ -152,6 +153,7 @@ type Gen struct {
 	drainStep   int
 	chased      bool
 	runout      bool
+	everSid     map[int]string // actor -> sid DID it has been listed in at some point
 	chase12     int // remaining jumps to the next examination of a stalled long-timeout order
 }
 
@@ -271,6 +273,16 @@ func (g *Gen) Next() *Step {
 		s := g.setupQ[0]
 		g.setupQ = g.setupQ[1:]
 		return &s
+	}
+	if g.everSid == nil {
+		g.everSid = map[int]string{}
+	}
+	for _, did := range sortedKeys(e.Cur.Did.AccountLists) {
+		for _, ad := range e.Cur.Did.AccountLists[did] {
+			if a := e.W.ByAddr[strings.TrimPrefix(e.Cur.Did.AccountIds[ad], "cosmos:"+ChainID+":")]; a != nil {
+				g.everSid[a.Idx] = did
+			}
+		}
 	}
 	h := int(e.Seq.Height)
 	if h >= g.horizon && g.runout {
@@ -574,6 +586,23 @@ func (g *Gen) genKind(k string) *Op {
 		op := &Op{K: "store", A: gw.Idx, Own: owner.Idx + 1, D: d, Mode: "new", Rep: int32(r.Range(1, 3)), Dur: g.drawDur(), Tmo: g.drawTmo(), Size: g.sizes()}
 		if r.Chance(0.06) {
 			op.Rep = int32(r.Range(4, 30))
+			if len(w.SPs) >= 12 && r.Chance(0.6) {
+				// nearly as many replicas as there are eligible providers: the seeded selection has
+				// to draw many times (and may use up its seed)
+				need := nodetypes.NODE_STATUS_ONLINE | nodetypes.NODE_STATUS_SERVE_STORAGE | nodetypes.NODE_STATUS_ACCEPT_ORDER
+				el := 0
+				for _, k := range sortedKeys(s.Node.Pledges) {
+					pl := s.Node.Pledges[k]
+					if n, ok := s.Node.Nodes[k]; ok && n.Status&need == need && pl.TotalStorage-pl.UsedStorage >= 1000 {
+						el++
+					}
+				}
+				if el >= 10 {
+					op.Rep = int32(el - r.Range(1, 2))
+					op.Size = uint64(r.Range(1, 1000))
+					e.probe("replicas_nearly_all_eligible_providers")
+				}
+			}
 		}
 		if len(w.Sponsors) > 0 && r.Chance(0.15) {
 			sp := g.pickActor(w.Sponsors)
@@ -601,6 +630,20 @@ func (g *Gen) genKind(k string) *Op {
 				op.Prov = gw.Idx + 1
 				op.PP = gw.Idx + 1
 				e.probe("direct_store_by_sid_owner")
+				// an account that used to be bound to this sid and has been removed from it gets hold of
+				// the owner-signed request and submits it itself
+				did := e.sidOf(so)
+				var removed []*Actor
+				for _, b := range w.Actors {
+					if g.everSid[b.Idx] == did && b != so && !e.listedIn(b, did) {
+						removed = append(removed, b)
+					}
+				}
+				if b := g.pickActor(removed); b != nil && r.Chance(0.6) {
+					op.A = b.Idx
+					op.Note = "adv:removed-account-submits"
+					e.probe("store_submitted_by_account_removed_from_sid")
+				}
 			}
 		}
 		g.dead[d] = true // candidates for re-creation once gone
@@ -954,7 +997,8 @@ func (g *Gen) genKind(k string) *Op {
 			if !ok {
 				continue
 			}
-			for _, sid := range o.Shards {
+			for _, si := range r.Perm(len(o.Shards)) {
+				sid := o.Shards[si]
 				sh, ok := s.Order.Shards[sid]
 				if !ok {
 					continue
@@ -962,6 +1006,9 @@ func (g *Gen) genKind(k string) *Op {
 				a := w.ByAddr[sh.Sp]
 				if a == nil {
 					continue
+				}
+				if sh.Status != ordertypes.ShardCompleted {
+					e.probe("report_names_shard_not_stored_yet")
 				}
 				op := &Op{K: k, A: rep.Idx, Acc: a.Idx + 1, D: i, N: int64(r.Intn(3))}
 				if k == "recover" && r.Chance(0.5) {
